@@ -441,11 +441,14 @@ def decision_model(ctx, repo, rule):
         return bytes(b)
     items = (("byte", "GeckoByteStructAccessor", ["B", 10, "ALL"], lambda b: b[10]),
              ("word", "GeckoWordStructAccessor", ["W", 20, "ALL"], lambda b: b[20] * 256 + b[21]),
-             ("label", "GeckoEnumStructAccessor", ["E", 30, 2, ["OFF", "LO", "HI", "MAX"], None, 4, "ALL"], lambda b: ["OFF", "LO", "HI", "MAX"][(b[30] >> 2) & 3]))
-    pairs = (("unchanged::other-bytes-differ", blk(p10=7, p20=1, p21=2, p30=0b0100, p5=9), blk(p10=7, p20=1, p21=2, p30=0b0100, p5=1)),
-             ("changed", blk(p10=7, p20=1, p21=2, p30=0b0100), blk(p10=8, p20=1, p21=3, p30=0b1000)),
-             ("changed-to-zero", blk(p10=7, p20=1, p21=2, p30=0b0100), blk()),
-             ("other-bits-of-the-byte-differ", blk(p10=7, p20=1, p21=2, p30=0b0100), blk(p10=7, p20=1, p21=2, p30=0b0111)))
+             ("label", "GeckoEnumStructAccessor", ["E", 30, 2, ["OFF", "LO", "HI", "MAX"], None, 4, "ALL"], lambda b: ["OFF", "LO", "HI", "MAX"][(b[30] >> 2) & 3]),
+             # every declared item type decodes the PREVIOUS block it is handed, not the live one (schedule times and flags too)
+             ("time", "GeckoTimeStructAccessor", ["T", 40, "ALL"], lambda b: f"{b[40]:02}:{b[41]:02}"),
+             ("flag", "GeckoBoolStructAccessor", ["Q", 50, 3, "ALL"], lambda b: bool(b[50] & 8)))
+    pairs = (("unchanged::other-bytes-differ", blk(p10=7, p20=1, p21=2, p30=0b0100, p40=6, p41=30, p50=8, p5=9), blk(p10=7, p20=1, p21=2, p30=0b0100, p40=6, p41=30, p50=8, p5=1)),
+             ("changed", blk(p10=7, p20=1, p21=2, p30=0b0100, p40=6, p41=30, p50=8), blk(p10=8, p20=1, p21=3, p30=0b1000, p40=6, p41=45, p50=0)),
+             ("changed-to-zero", blk(p10=7, p20=1, p21=2, p30=0b0100, p40=6, p41=30, p50=8), blk()),
+             ("other-bits-of-the-byte-differ", blk(p10=7, p20=1, p21=2, p30=0b0100, p40=6, p41=30, p50=8), blk(p10=7, p20=1, p21=2, p30=0b0111, p40=6, p41=30, p50=0b1111)))
     n = 0
     for kind, cname, args, decode in items:
         for key, prev, new in pairs:
@@ -469,7 +472,7 @@ def decision_model(ctx, repo, rule):
                    f"{kind} item, {key.replace('::', ', ')}: observers got {[tuple(map(str, c[1:])) for c in calls]}, expected {[tuple(map(str, w[1:])) for w in want]} "
                    f"(one notification with the values decoded from the previous and the current block iff they differ)", fi.loc,
                    sample={"rule": rule, "item": kind, "case": key, "notifications": len(calls)})
-    ctx.floor(rule, "item x block-pair notifications interpreted", n, 12)
+    ctx.floor(rule, "item x block-pair notifications interpreted", n, 20)
 
 
 def reentrant_update_model(ctx, repo, rule):
